@@ -28,7 +28,7 @@ Ev == Traces[tid].events[l]
 
 Step(e) ==
     CASE e.op = "Enter"       -> Enter(e.o)
-      [] e.op = "Exit"        -> Exit(e.o)
+      [] e.op = "Exit"        -> Exit(e.o, IF "exc" \in DOMAIN e THEN e.exc ELSE FALSE)
       [] e.op = "Encrypt"     -> Encrypt(e.o, e.m)
       [] e.op = "Decrypt"     -> Decrypt(e.o, e.m)
       [] e.op = "GenerateKey" -> GenerateKey(e.o)
